@@ -19,8 +19,11 @@ import (
 )
 
 type condAtom struct {
-	op   token.Token // EQL NEQ LSS LEQ GTR GEQ, already normalised to "holds"
+	op   token.Token // EQL NEQ LSS LEQ GTR GEQ, already normalised to "holds"; ILLEGAL for a predicate call
 	x, y ssa.Value
+	// a module predicate called as the condition (`if z.atEnd(i)`): the facts come from its body (boolCallFacts)
+	call  *ssa.Call
+	truth bool
 }
 
 func negOp(op token.Token) (token.Token, bool) {
@@ -60,6 +63,10 @@ func condAtoms(cond ssa.Value, truth bool, depth int) []condAtom {
 			op, _ = negOp(op)
 		}
 		return []condAtom{{op: op, x: c.X, y: c.Y}}
+	case *ssa.Call:
+		if f := c.Call.StaticCallee(); f != nil && !c.Call.IsInvoke() && fnPkg(f) != nil && core.InModule(fnPkg(f)) {
+			return []condAtom{{op: token.ILLEGAL, x: c, call: c, truth: truth}}
+		}
 	case *ssa.Phi:
 		// a && b as a value: phi(false [a false], b [a true]); true => came through the edge(s) whose operand can be true.
 		// a || b as a value: phi(true [a true], b [a false]);  false => came through the edge(s) whose operand can be false.
